@@ -30,6 +30,7 @@ type c06Pkt struct {
 
 type c06Scenario struct {
 	Component bool       `json:"component"`
+	Deferred  bool       `json:"routes_created_first_configured_later,omitempty"`
 	Routes    []c06Route `json:"routes"`
 	Packets   []c06Pkt   `json:"packets"`
 	Seg       int        `json:"segmentation"`
@@ -98,6 +99,9 @@ func refRoute(routes []c06Route, p c06Pkt) int {
 func runC06(e *Engine, g G, o RunOpt) RunInfo {
 	sc := &c06Scenario{}
 	sc.Component = g.Pct("component", 30)
+	// the API hands out *Route: an application may create its routes first and attach
+	// matchers and handlers afterwards
+	sc.Deferred = g.Pct("deferred-build", 25)
 	nr := g.Range("nroutes", 0, 6)
 	typePool := []string{"chat", "normal", "groupchat", "headline", "error", "get", "set", "result", "unavailable", "subscribe", "Chat", "GET"}
 	nsPool := []string{nsVersion, nsDiscoInfo, nsDiscoItems, "urn:xmpp:ping", "x:y"}
@@ -208,9 +212,20 @@ func runC06(e *Engine, g G, o RunOpt) RunInfo {
 	var conn *SrvConn
 	var estItems int
 	build := func(r *xmpp.Router) {
+		var created []*xmpp.Route
+		if sc.Deferred {
+			for range sc.Routes {
+				created = append(created, r.NewRoute())
+			}
+		}
 		for i, rt := range sc.Routes {
 			i := i
-			route := r.NewRoute()
+			var route *xmpp.Route
+			if sc.Deferred {
+				route = created[i]
+			} else {
+				route = r.NewRoute()
+			}
 			if rt.Name != "" {
 				route.Packet(rt.Name)
 			}
